@@ -52,6 +52,14 @@ def r1(ctx, F):
             ctx.saw(m)
             rv = prov.prov_of(m).return_value()
             d = delta_fields(rv, 1)
+            if d is None:
+                # `self.map_difficulty(|d| d.mods(mods))`: a private combinator of the builder that applies a closure to the field
+                import combin as _cb
+                rv2 = _cb.expand(F, prov.inline_all(F, rv, depth=1, _seen=(m.path,), only=lambda f_: (f_.get('impl_adt') or '') == adt and
+                                                    f_.get('name') not in SETTERS and not f_.get('trait')))
+                d = delta_fields(rv2, 1)
+                if d is not None:
+                    rv = rv2
             key = '%s:%s' % (mode, s)
             if d is None or set(d) != {'difficulty'}:
                 ctx.violation('C18-R1', key, '%s must return self with only `difficulty` changed; it changes %s' % (
@@ -262,7 +270,10 @@ def r4_r5(ctx, F):
     ctx.saw(insp)
     ctx.saw(into)
     # inspect(): each public field <- some private field (through non_zero_u64_to_f64 for clock_rate)
-    rv = prov.strip(prov.prov_of(insp).return_value())
+    # inspect() may delegate to its `From<Difficulty> for InspectDifficulty` twin (or the other way round): read through that conversion
+    rv = prov.inline_all(F, prov.prov_of(insp).return_value(), depth=1, _seen=(insp.path,),
+                         only=lambda f_: f_.get('name') in ('from', 'into') and 'InspectDifficulty' in ((f_.get('path') or '') + (f_.get('impl_self') or '')))
+    rv = prov.strip(rv)
     expose = {}      # public name -> private field
     if rv[0] == 'agg' and rv[2] == INSPECT:
         for pub, v in rv[4].items():
